@@ -13,6 +13,7 @@ use serde::Serialize;
 use serde::ser::SerializeMap;
 
 use crate::escaping::Escaper;
+use crate::escaping::guard_tailing_no_eol;
 
 /// Rule implements the line-level comparisons of [`crate::expectation::Expectation`]s
 pub trait Rule: RuleClone + Debug + Send {
@@ -45,7 +46,7 @@ pub trait Rule: RuleClone + Debug + Send {
         match kind.as_str() {
             "equal" => {
                 if unprintable {
-                    format!("{rendered} (escaped{quantifier})")
+                    format!("{} (escaped{quantifier})", guard_tailing_no_eol(rendered))
                 } else if quantifier.is_empty() && ends_like_modifier(&rendered) {
                     // the bare text would be read as an expression with a modifier
                     format!("{rendered} (equal)")
@@ -55,9 +56,14 @@ pub trait Rule: RuleClone + Debug + Send {
             }
             // escape sequences are always resolved when this kind is read, so
             // backslashes must always be escaped when it is written
-            "escaped" if !unprintable => {
-                format!("{} (escaped{quantifier})", rendered.replace('\\', "\\\\"))
-            }
+            "escaped" if !unprintable => format!(
+                "{} (escaped{quantifier})",
+                guard_tailing_no_eol(rendered.replace('\\', "\\\\"))
+            ),
+            "escaped" => format!(
+                "{} (escaped{quantifier})",
+                guard_tailing_no_eol(rendered)
+            ),
             // only a glob can be read back from an escaped rendering
             "glob" if unprintable => format!("{rendered} (escaped) (glob{quantifier})"),
             // all other kinds have no escaped form that could be read back: the
